@@ -1,4 +1,5 @@
 import Rivaas.Basic
+import Rivaas.Model.Accept
 /-
 C06 — model of `app.Context.Fail` / `FailStatus` / the status helpers and of the three formatters of
 `rivaas.dev/errors`.
@@ -526,6 +527,23 @@ def failUnencodable (pos : Nat) : Resp :=
 def failH (_preCT : Option Bytes) (_abortedBefore : Bool) (_ctxDone : Bool) (env : Env) (cfg : Cfg) (acceptsAnswer : Bytes) (w : Wire)
     (pos : Nat) (call : Call) : Resp :=
   fail env cfg acceptsAnswer w pos call
+
+/-! ### content negotiation inside the model: `c.Accepts(offers...)` is C19's model of router/accept.go -/
+
+/-- `c.Accepts(offers...)` for the request's Accept header (`Model/Accept.lean`: no offers → `""`, no header →
+    the first offer, else the best acceptable offer); `pf` is `strconv.ParseFloat` (parameter) -/
+def acceptsOf (pf : Accept.PF) (accept : Option Bytes) (offers : List Bytes) : Bytes :=
+  Accept.answer pf { kind := .accept, header := accept.getD [], offers := offers }
+
+/-- all orders of a list: `selectFormatter` builds `offers` by ranging over the formatter map -/
+def perms {α : Type} : List α → List (List α)
+  | [] => [[]]
+  | x :: xs => (perms xs).flatMap fun p => (List.range (p.length + 1)).map fun i => p.take i ++ x :: p.drop i
+
+/-- `fail` with the negotiation inside: `order` is the order in which the map iteration produced the offers -/
+def failN (pf : Accept.PF) (env : Env) (cfg : Cfg) (accept : Option Bytes) (order : List Bytes) (w : Wire)
+    (pos : Nat) (call : Call) : Resp :=
+  fail env cfg (acceptsOf pf accept order) w pos call
 
 /-- as shipped (K06d): when the body did not encode `fail` returned after a log line — nothing written,
     the client got the implicit 200 with an empty body (the chain was aborted) -/
